@@ -83,7 +83,7 @@ def conformance(cls, tier, seed=0):
             conflict.append(site)
         mo[site] = sorted(orders)[0]
     total_sites = {'pess': 16, 'opt': 20, 'mcs': 42}[cls]
-    res = {'ok': not rej and not conflict, 'sites_exercised': '%d/%d' % (len(mo), total_sites),
+    res = {'ok': bool(hists) and not rej and not conflict, 'sites_exercised': '%d/%d' % (len(mo), total_sites),
            'sites_never_exercised_get_seq_cst': total_sites - len(mo), 'streams': len(hists), 'executions': len(execs), 'events': st['events'],
            'states': st['distinct'], 'transitions': st['states'], 'mo': mo, 'mo_conflicts': conflict,
            'rejected': [{'program': reps[r['hist']].prog, 'schedule': reps[r['hist']].sched, 'line': r['line'],
